@@ -129,7 +129,11 @@ def sentences(ctx):
     for s in ['try:\n\tpass\nexcept E:\n\tpass', '(a, b), c = x', 'class C:\n\tdef __init__(self) -> None:\n\t\tself.a, self.b = 1, 2', 'def f(self) -> None:\n\tpass',
               'class C:\n\tdef m(this) -> None:\n\t\tpass', 'def f() -> None:\n    x = 1\n\x0c    y = 2', 'x = {**a, "k": 1}', 'x = [*a, 1]', 'a, b = b, a', 'x = a if b else c if d else e',
               'try:\n\tpass\nexcept (E, F) as e:\n\tpass', 'with a as (b, c):\n\tpass', 'for (a, b), c in d:\n\tpass', 'x = a[1:2, ::3]', 'x = (yield)', 'x: int', 'del a, b', 'assert a, b', 'global a', 'nonlocal a',
-              'raise E from f', 'import a.b', 'from . import a', 'from a import (b, c)', 'lambda *a, **k: a', 'x = f(a for a in b)', 'x = [a for a in b if c if d]', 'x = {a: b for a, b in c}', 'x = a @ b', 'x = a // b', 'x = a ** -b']:
+              'raise E from f', 'import a.b', 'from . import a', 'from a import (b, c)', 'lambda *a, **k: a', 'x = f(a for a in b)', 'x = [a for a in b if c if d]', 'x = {a: b for a, b in c}', 'x = a @ b', 'x = a // b', 'x = a ** -b',
+              # round 8
+              'b, = c', 'for i, in a:\n\tpass', "x = f'{a}'", "x = b'a'", 'class C:\n\tif a:\n\t\tdef m(self) -> None:\n\t\t\tpass', 'class C:\n\t@staticmethod\n\tdef g(self) -> None:\n\t\tpass',
+              'x: tuple[int, ...] = y', 'x: a.B[C].D = 1', '(a, b) = c', '[a, b] = c', 'del (a)', 'x.y: int = 1', 'x[0]: int = 1', 'x = 0b11', 'x = 0o17', 'x = 1j',
+              'def f() -> None:\n\tself = 1', 'class C:\n\tdef m(self) -> None:\n\t\tself.b: int = 1']:
         yield s, ('extra', 0)
     # number spellings: exponent forms without a decimal point, hex digits that look like exponents, separators, bare points
     for lit in ['1e5', '2E3', '1e-3', '1E+2', '1.5e3', '1e0', '0x1e5', '0X1F', '0xe', '1_000', '1_0.0_1', '1_0e1_0', '.5', '5.', '5.e1', '.5e-1', '0', '00', '0.0', '1e5j' if False else '1.e5']:
